@@ -670,6 +670,13 @@ func neutralise(tree []any, mode, keep string) []any {
 // 4. otherwise all present ones ("fails only in combination")
 // Neutral forms keep the sub-trees of a site (wrapNZ / embedStmt), so removing one hazard does not remove
 // another one nested inside it.
+// attrPreferred: ids the ledger lists as known (set by report); attrFirstCureOnly: stop at the first hazard whose
+// removal alone cures the case (set per case: true for the non-exhaustive random / mutated inputs).
+var (
+	attrPreferred     = map[string]bool{}
+	attrFirstCureOnly bool
+)
+
 func attribute(found map[string]bool, order []string, unexplained string, test func(set map[string]bool) (bool, bool)) (sigs []string, note string) {
 	if len(found) == 0 {
 		return []string{unexplained}, "no known hazard in the tree"
@@ -688,10 +695,23 @@ func attribute(found map[string]bool, order []string, unexplained string, test f
 	if len(found) == 1 {
 		return sortedKeys(found), ""
 	}
+	// (hazards the ledger lists as still known are tried first; for large random inputs the first cure ends the search)
+	tryOrder := []string{}
 	for _, hz := range order {
-		if found[hz] {
-			if f, ok := test(map[string]bool{hz: true}); ok && !f {
-				sigs = append(sigs, hz)
+		if found[hz] && attrPreferred[hz] {
+			tryOrder = append(tryOrder, hz)
+		}
+	}
+	for _, hz := range order {
+		if found[hz] && !attrPreferred[hz] {
+			tryOrder = append(tryOrder, hz)
+		}
+	}
+	for _, hz := range tryOrder {
+		if f, ok := test(map[string]bool{hz: true}); ok && !f {
+			sigs = append(sigs, hz)
+			if attrFirstCureOnly {
+				break
 			}
 		}
 	}
@@ -736,6 +756,8 @@ func fmtAttribute(rec *fmtRec, prop, mode, law string, individually bool) (sigs 
 		v := fmtLawsGo(&r2)
 		return fmtFailedLaw(prop, mode, v) != "", true
 	}
+	attrFirstCureOnly = !individually
+	defer func() { attrFirstCureOnly = false }()
 	return attribute(found, hazardOrder, unexplained, test)
 }
 
